@@ -18,7 +18,7 @@ from common import Check, P, Zr, Nr, L, T, O, B, run_shards
 PID = "C18"
 HEADER = "From TV Require Import Base Model.Command."
 REASONS = {121: "handler-interrupt-or-write-events-differ-from-model", 122: "exception-escaped-the-message-handler",
-           123: "http-endpoint-interrupt-order-wrong"}
+           123: "http-endpoint-interrupt-order-wrong", 124: "replies-of-concurrent-connections-mixed-up-or-lost"}
 
 SPEC_POOL = [
     dict(regex=r"P=(\d+)", fmt="utf-8"), dict(regex=rb"P=(\d+)", fmt=None), dict(regex=r"Q\?", fmt="utf-8"),
@@ -182,6 +182,78 @@ def run_connection(specs, chunks, on_connect=(), slow_interrupt=0, split=None):
             raised = type(e).__name__
     asyncio.run(main())
     return log, raised
+
+
+def run_two_connections(specs, chunks_a, chunks_b):
+    """one TcpIo handler function serving two connections at once: A sends its first chunk, then B connects and
+    sends its first chunk, then both go on; returns what was written to each connection"""
+    from tickit.adapters.io.tcp_io import TcpIo
+
+    log = []
+    adapter = make_adapter(specs, log)
+    writes = {"a": [], "b": []}
+
+    class W(FakeWriter):
+        def __init__(self, who):
+            self.who = who
+
+        def write(self, data):
+            writes[self.who].append(data)
+
+    async def raise_interrupt():
+        log.append(("interrupt",))
+
+    async def main():
+        handle = TcpIo("h", 1)._generate_handle_function(adapter.on_connect, adapter.handle_message, raise_interrupt,
+                                                         adapter.byte_format)
+        a_first, b_first = asyncio.Event(), asyncio.Event()
+
+        class R:
+            def __init__(self, who, chunks):
+                self.who, self.chunks, self.k = who, list(chunks), 0
+
+            async def read(self, n):
+                for _ in range(6):
+                    await asyncio.sleep(0)
+                self.k += 1
+                if self.k == 2:
+                    (a_first if self.who == "a" else b_first).set()
+                    if self.who == "a":
+                        await b_first.wait()          # A only goes on once B has been accepted and answered
+                return self.chunks.pop(0) if self.chunks else b""
+
+        ta = asyncio.create_task(handle(R("a", chunks_a), W("a")))
+        await a_first.wait()
+        tb = asyncio.create_task(handle(R("b", chunks_b), W("b")))
+        await asyncio.wait([ta, tb], timeout=60)
+    asyncio.run(main())
+    return writes
+
+
+def two_connections_part(ck, rng):
+    """replies go to the connection the message came from, whatever other connections are open"""
+    n_bad = 0
+    for _ in range(12):
+        specs = gen_specs(rng)
+        msgs, derived = gen_messages(rng, specs, "quick")
+        hits = [m for m in msgs + derived if any(indep_parse(sp, m)[0] == "Match" for sp in specs)]
+        if len(hits) < 2:
+            continue
+        ca = [rng.choice(hits) for _ in range(rng.randint(2, 4))]
+        cb = [rng.choice(hits + derived[:5]) for _ in range(rng.randint(1, 3))]
+        got = run_two_connections(specs, ca, cb)
+        exp_a = [e[1] for e in run_connection(specs, ca)[0] if e[0] == "write"]
+        exp_b = [e[1] for e in run_connection(specs, cb)[0] if e[0] == "write"]
+        ck.count("two-connections:" + json.dumps([[m.hex() for m in ca], [m.hex() for m in cb]]), True)
+        if (got["a"] != exp_a or got["b"] != exp_b) and not n_bad:
+            n_bad += 1
+            ck.report(REASONS[124], f"two connections open at once: connection A received {got['a']} (alone it receives {exp_a}), "
+                      f"connection B received {got['b']} (alone {exp_b})",
+                      dict(kind="two-connections", specs=[dict(sp, regex=(sp["regex"] if isinstance(sp["regex"], str) else "bytes:" + sp["regex"].hex()))
+                                                          for sp in specs],
+                           chunks_a=[m.hex() for m in ca], chunks_b=[m.hex() for m in cb],
+                           written_a=[w.hex() for w in got["a"]], written_b=[w.hex() for w in got["b"]]))
+    ck.coverage["two_connection_runs"] = 12
 
 
 def r_parse(p):
@@ -494,6 +566,7 @@ def main(tier, seed):
                  "Match" in ps or "DecodeFails" in ps)
     http_part(ck)
     examples_part(ck, tier, rng)
+    two_connections_part(ck, rng)
     ck.rule = ("generated command sets (1-5 commands from a pool of text/bytes patterns with utf-8 / ascii / latin-1 decoding, "
                "interrupting or not, single or streamed replies with empty markers) driven through the real TCP handler: every byte "
                "string of length <= 1 and a grid of length-2 strings per set, pattern-derived messages (exact, truncated, over-long, "
@@ -531,6 +604,15 @@ def replay(rp):
         want = [fmt % r for ref in reference for r in (ref["replies"] if ref else [b"Request does not match any known command"])]
         got = [e[1] for e in log if e[0] == "write"]
         return 1 if raised or want != got else 0
+    if rp.get("kind") == "two-connections":
+        specs = [dict(sp, regex=(bytes.fromhex(sp["regex"][6:]) if sp["regex"].startswith("bytes:") else sp["regex"])) for sp in rp["specs"]]
+        ca, cb = [bytes.fromhex(h) for h in rp["chunks_a"]], [bytes.fromhex(h) for h in rp["chunks_b"]]
+        got = run_two_connections(specs, ca, cb)
+        exp_a = [e[1] for e in run_connection(specs, ca)[0] if e[0] == "write"]
+        exp_b = [e[1] for e in run_connection(specs, cb)[0] if e[0] == "write"]
+        print("connection A:", got["a"], "alone:", exp_a)
+        print("connection B:", got["b"], "alone:", exp_b)
+        return 1 if got["a"] != exp_a or got["b"] != exp_b else 0
     if rp.get("kind") != "tcp":
         print(rp)
         return 1
